@@ -59,7 +59,7 @@ for name in names:
     with open(os.path.join(out, "patch.diff"), "w") as f:
         f.write(applied_diff)
     for extra in ("demo.py", "patch.orig.diff"):
-        if os.path.exists(os.path.join(sd, extra)):
+        if os.path.exists(os.path.join(sd, extra)) and os.path.realpath(os.path.join(sd, extra)) != os.path.realpath(os.path.join(out, extra)):
             shutil.copy(os.path.join(sd, extra), os.path.join(out, extra))
     head = sh("git rev-parse --short HEAD", REPO).stdout.strip()
     meta_out = {
